@@ -400,6 +400,32 @@ def run_case(spec):
     est.get_mahalanobis_matrix()               # the first model is looked at before the parameters change
     est.transform(np.arange(3))
     est.set_params(preprocessor=B)
+    # ... and, before any refit, a pickle / deepcopy of this fitted estimator answers index queries exactly as the original does
+    # (whatever the original does with the fitted indexer and the new parameter, the copy is a copy of that state)
+    import copy as _copy
+    for how, dup in (('pickle round trip', lambda e: pickle.loads(pickle.dumps(e))), ('copy.deepcopy', _copy.deepcopy)):
+        try:
+            ref_out = est.transform(np.arange(4))
+        except Exception as e:
+            ref_out = type(e).__name__
+        try:
+            pk = dup(est)
+            pk_out = pk.transform(np.arange(4))
+            pk_pre = pk.get_params()['preprocessor']
+        except Exception as e:
+            pk_out, pk_pre = type(e).__name__ + ': ' + str(e)[:80], B
+        evals += 1
+        sigs.add((name, 'set_params_on_fitted_then_' + how))
+        same = (np.array_equal(ref_out, pk_out) if isinstance(ref_out, np.ndarray) and isinstance(pk_out, np.ndarray)
+                else (isinstance(ref_out, str) and isinstance(pk_out, str) and pk_out.startswith(ref_out)))
+        if not same:
+            viol.append(V(name + '.pickle', 'pickle_changes_output', 'fit on indices (preprocessor A), set_params(preprocessor=B), %s: transform on '
+                          'indices gives %s on the copy and %s on the original' % (how, 'another embedding' if isinstance(pk_out, np.ndarray) else pk_out,
+                                                                                  'an embedding' if isinstance(ref_out, np.ndarray) else ref_out),
+                          ['preprocessor', 'fitted', 'set_params_without_refit']))
+        if not np.array_equal(np.asarray(pk_pre), B):
+            viol.append(V(name + '.pickle', 'pickle_changes_params', 'the preprocessor parameter set on a fitted estimator is lost by a %s' % how,
+                          ['preprocessor', 'fitted']))
     cl = clone(est)
     est.fit(*zoo.train_args(name, ds, 'index'))
     cl.fit(*zoo.train_args(name, ds, 'index'))
